@@ -1,11 +1,15 @@
 """C06 - Validator admits exactly requests with valid JWT / signature / Basic credentials (DESIGN 5/C06).
 
-Phases (VERIF_PHASES=enum,clock,etcd,reconf,go,mbt,tv):
+Phases (VERIF_PHASES=enum,clock,etcd,file,reconf,go,mbt,tv):
   enum   TLC enumerates every (configuration, request record) vector of specs/Validator_Gen.tla with the contract's
          prediction, checking on the way the contract's theorems (single-mutation theorem, closure of the vector set)
   clock  TLC model-checks the temporal part (exp / nbf against an advancing clock) and generates clock behaviours
   etcd   TLC model-checks the credential-table part (ETCD mode: snapshots remove users / change passwords / empty the
          table between presentations) and generates such behaviours
+  file   TLC model-checks the user-file part (FILE mode: the htpasswd file is edited between presentations, one to three edits in a
+         row before the source settles) and generates such behaviours; the harness edits the real file (in place, appended, in
+         chunks), twice or more in quick succession, grants the validator's file watcher a bounded wait (see the harness: a probe
+         user written last into the file becomes valid, or 10 s pass; re-checked in a fresh world) and presents the request again
   reconf TLC model-checks the hot-update part (Reconfigure: a new generation is built from a new spec with Inherit: JWT secret
          rotated / algorithm changed, access keys removed / re-keyed, Basic users changed, methods dropped and added) and
          generates such behaviours (accepted -> hot update -> the same request again)
@@ -32,10 +36,10 @@ INVS = ("OnlyIfAllAccept Complete RejectShape AcceptShape SingleMutationRejected
         "OnlyCurrentCredentials EmptyTableRejectsAll OnlyCurrentSecret OnlyCurrentAccessKeys NoAnonymousSigner RepairedImplRefines")
 
 
-def _consts(mode, now0, maxpresent, maxsync, full=False, maxreconf=0):
+def _consts(mode, now0, maxpresent, maxsync, full=False, maxreconf=0, maxedit=0):
     return ("CONSTANTS\n  Cfgs <- GenCfgs\n  Reqs <- GenReqs\n  Recfgs <- GenRecfgs\n  Now0 = %d\n  MaxNow = 4\n  MaxPresent = %d\n"
-            "  MaxSync = %d\n  MaxReconf = %d\n  Full = %s\n  Mode = \"%s\"\n" % (now0, maxpresent, maxsync, maxreconf,
-                                                                                 "TRUE" if full else "FALSE", mode))
+            "  MaxSync = %d\n  MaxReconf = %d\n  MaxEdit = %d\n  Full = %s\n  Mode = \"%s\"\n" % (now0, maxpresent, maxsync, maxreconf, maxedit,
+                                                                                                "TRUE" if full else "FALSE", mode))
 
 
 def enum_cfg(full):
@@ -52,13 +56,18 @@ def etcd_cfg(spec, maxpresent, maxsync, props=True):
            ("VIEW view\nINVARIANTS %s\nPROPERTIES AcceptedThenRevoked\n" % INVS if props else "")
 
 
+def file_cfg(spec, maxpresent, maxedit, props=True):
+    return "SPECIFICATION %s\n" % spec + _consts("file", 4, maxpresent, 0, maxedit=maxedit) + \
+           ("VIEW view\nINVARIANTS %s\nPROPERTIES AcceptedThenRevoked\n" % INVS if props else "")
+
+
 def reconf_cfg(spec, maxpresent, maxreconf, maxsync=0, props=True):
     return "SPECIFICATION %s\n" % spec + _consts("reconf", 4, maxpresent, maxsync, maxreconf=maxreconf) + \
            ("VIEW view\nINVARIANTS %s\nPROPERTIES AcceptedThenRotated AcceptedThenRevoked\n" % INVS if props else "")
 
 
 TRACE_CFG = ("SPECIFICATION TSpec\nCONSTANTS\n  Cfgs = {}\n  Reqs <- NoReqs\n  Recfgs <- NoRecfgs\n  Now0 = 0\n  MaxNow = 100000000\n  MaxPresent = 100000000\n"
-             "  MaxSync = 100000000\n  MaxReconf = 100000000\n"
+             "  MaxSync = 100000000\n  MaxReconf = 100000000\n  MaxEdit = 100000000\n"
              "CONSTRAINT HWM\nPOSTCONDITION Accepted\nINVARIANTS TContract Final\n")
 
 
@@ -377,7 +386,7 @@ def run(ctx):
                         "outcomes the property leaves open (token exactly at exp, cookie and bearer token disagreeing, multi-valued ruled "
                         "header with mixed values, presigned query next to a foreign Authorization header) are 'free' in the contract"]
     full = not ctx.quick
-    vectors, clock_behs, etcd_behs, reconf_behs = [], [], [], []
+    vectors, clock_behs, etcd_behs, reconf_behs, file_behs = [], [], [], [], []
 
     # the TLC work (independent runs) in two lanes side by side
     def lane_enum_clock():
@@ -414,8 +423,15 @@ def run(ctx):
             reconf_behs.extend(ctx.tlc_simulate("Validator_Gen", reconf_cfg("CSpec", 6, 3, maxsync=1, props=False),
                                                 num=300 if ctx.quick else 900, depth=11))
 
-    with ThreadPoolExecutor(2) as pool:
-        lanes = [pool.submit(lane_enum_clock), pool.submit(lane_etcd_reconf)]
+    def lane_file():
+        if ctx.phase("file"):
+            r = ctx.tlc_mc("Validator_Gen", file_cfg("MSpec", 2, 3 if ctx.quick else 4), label="file: edits of the user file in a row, temporal theorems",
+                           timeout=1200)
+            ctx.log("user-file part model checked: %d distinct states" % r.distinct)
+            file_behs.extend(ctx.tlc_simulate("Validator_Gen", file_cfg("CSpec", 6, 7, props=False), num=120 if ctx.quick else 500, depth=18))
+
+    with ThreadPoolExecutor(3) as pool:
+        lanes = [pool.submit(lane_enum_clock), pool.submit(lane_etcd_reconf), pool.submit(lane_file)]
     for f in lanes:
         f.result()      # re-raises (inconclusive) in the main thread
     if not ctx.phase("go"):
@@ -430,7 +446,7 @@ def run(ctx):
         vs = bycfg[k]
         behs.append([{"a": "init", "cfg": vs[0]["cfg"], "now": vs[0]["now"]}] +
                     [{"a": "present", "req": v["req"], "exp": v["exp"], "v": v["v"], "impl": v["impl"]} for v in vs])
-    behs += clock_behs + etcd_behs + reconf_behs
+    behs += clock_behs + etcd_behs + reconf_behs + file_behs
     rng = random.Random(ctx.seed * 7919 + 6)
     nrand = (150, 12) if ctx.quick else (800, 14)
     behs += random_behaviours(rng, *nrand)
